@@ -301,34 +301,52 @@ pub fn run(case: &C10Case, thorough: bool) -> CaseRes {
                     store.put_raw(k, v);
                 }
             }
-            // items of the prefix stay intact: damage applies to what has not been loaded yet
-            let now = store.snap();
-            let pre = obs(&live)?;
-            let r = match guard("refresh", || live.refresh()) {
-                Ok(r) => r,
-                Err(Fail::Panic { op, msg }) => return viol("C10", format!("{} aborted on damaged storage: {}", op, msg)),
-                Err(f) => return Err(f),
-            };
-            match r {
-                Err(_) => {
-                    let post = obs(&live)?;
-                    if post != pre {
-                        return viol("C10", format!("refresh reported an error on damaged storage but changed the state: {}", first_diff(&pre, &post)));
+            // items of the prefix stay intact: damage applies to what has not been loaded yet.
+            // The refresh is repeated (a caller that sees an error tries again), and finally every damaged
+            // or deleted item is restored to its intact bytes (junk stays) and the refresh runs once more:
+            // every one of these refreshes must report an error and leave the state alone, or show exactly
+            // the state of the intact, causally complete items held at that moment.
+            for phase in ["first refresh", "second refresh", "third refresh", "refresh after the damaged items were restored", "refresh once more after the restore"] {
+                if phase == "refresh after the damaged items were restored" {
+                    for (k, v) in &intact {
+                        if store.get(k).as_ref() != Some(v) {
+                            store.set_raw(k, v.clone());
+                            *cnt.entry("items_restored_before_a_refresh").or_insert(0) += 1;
+                        }
                     }
-                    *cnt.entry("refresh_reported_error").or_insert(0) += 1;
                 }
-                Ok(()) => {
-                    let clo = model::closure(&now);
-                    let want = match open(HStore::from_snap(&clo.items(&now)).ad())? {
-                        Ok(m) => m,
-                        Err(e) => return viol("C10", format!("cannot open closure: {}", e)),
-                    };
-                    let a = obs(&live)?;
-                    let b = obs(&want)?;
-                    if a != b {
-                        return viol("C10", format!("refresh on damaged storage: state differs from the intact, causally complete items: {}", first_diff(&a, &b)));
+                let now = store.snap();
+                let pre = obs(&live)?;
+                let r = match guard("refresh", || live.refresh()) {
+                    Ok(r) => r,
+                    Err(Fail::Panic { op, msg }) => return viol("C10", format!("{} aborted on damaged storage ({}): {}", op, phase, msg)),
+                    Err(f) => return Err(f),
+                };
+                log.push(format!("live replica (prefix of {} items), {} -> {:?}", split, phase, r.as_ref().map_err(|e| e.to_string())));
+                match r {
+                    Err(_) => {
+                        let post = obs(&live)?;
+                        if post != pre {
+                            return viol("C10", format!("{} reported an error on damaged storage but changed the state: {}", phase, first_diff(&pre, &post)));
+                        }
+                        *cnt.entry("refresh_reported_error").or_insert(0) += 1;
                     }
-                    *cnt.entry("damaged_refreshes_compared").or_insert(0) += 1;
+                    Ok(()) => {
+                        let clo = model::closure(&now);
+                        let want = match open(HStore::from_snap(&clo.items(&now)).ad())? {
+                            Ok(m) => m,
+                            Err(e) => return viol("C10", format!("cannot open closure: {}", e)),
+                        };
+                        let a = obs(&live)?;
+                        let b = obs(&want)?;
+                        if a != b {
+                            return viol("C10", format!("{} on damaged storage: state differs from the intact, causally complete items: {}", phase, first_diff(&a, &b)));
+                        }
+                        *cnt.entry("damaged_refreshes_compared").or_insert(0) += 1;
+                        if phase != "first refresh" {
+                            *cnt.entry("repeated_refreshes_compared").or_insert(0) += 1;
+                        }
+                    }
                 }
             }
         }
